@@ -1,5 +1,6 @@
 pub mod dual;
 pub mod graph;
+pub mod meshcheck;
 pub mod op;
 pub mod sites;
 pub mod tape_shadow;
